@@ -248,9 +248,9 @@ def run(ctx):
     # ---- 1. model level -------------------------------------------------------------------------------
     ctx.tlc_check("HashTable", "Map", "Map.cfg")
     mod, cfg = mc(d, SCENARIOS[1], tag="_cov")
-    ctx.tlc_check(d, mod, cfg, must_cover=("BLock", "OLock", "ODec", "OCas", "OUnl", "WRmb", "RdSpin"), workers=4)
+    ctx.tlc_check(d, mod, cfg, must_cover=("BLock", "OLock", "ODec", "OCas", "OUnl", "WRmb", "RdSpin"), workers=2)
     mod, cfg = mc(d, SCENARIOS[1], noreins=True, tag="_noreins")
-    r = ctx.tlc_check(d, mod, cfg, expect_ok=False, workers=4)
+    r = ctx.tlc_check(d, mod, cfg, expect_ok=False, workers=2)
     if r.violated not in ("Placement", "NoBad"):
         raise tlc.TLCError("sensitivity self-test: the variant of the model that does not migrate found items must "
                            "violate Placement/NoBad, got %r" % r.violated)
